@@ -6,6 +6,7 @@ from .. import canon, explore, framework as F, ref_deflate, ref_ws, world as W
 from ..ref_ws import SFrame, TEXT, BINARY, CONT, CLOSE, PING
 
 DEFLATE = b'Sec-WebSocket-Extensions: permessage-deflate\r\n'
+DEFLATE_P = b'Sec-WebSocket-Extensions: permessage-deflate; client_no_context_takeover; client_max_window_bits=9\r\n'
 EURO = '€'.encode()
 REPEAT = b'subscribe:{"channel":"prices","symbols":["AAA","BBB","CCC"]} ' * 3
 
@@ -13,7 +14,7 @@ REPEAT = b'subscribe:{"channel":"prices","symbols":["AAA","BBB","CCC"]} ' * 3
 def first_menu(env):
     """Server steps available in the first (history) connection, given the environment state."""
     if env.phase == 'await-reply':
-        return ['eof', 'hs-ok', 'hs-deflate', 'hs-partial', 'hs-404', 'hs-oversize', 'err']
+        return ['eof', 'hs-ok', 'hs-deflate', 'hs-deflate-params', 'hs-partial', 'hs-404', 'hs-oversize', 'err']
     if env.phase != 'open':
         return ['eof']
     m = ['eof', 'text', 'frag-text', 'partial-frame', 'partial-header', 'partial-len16', 'partial-len64', 'ping', 'close-1000', 'close-trunc-reason', 'bad-utf8', 'silence', 'err']
@@ -69,6 +70,9 @@ class Env(object):
         if name == 'hs-deflate':
             self.phase, self.deflate, self.peer = 'open', True, ref_deflate.Peer()
             return W.Data(W.handshake_reply(req, DEFLATE))
+        if name == 'hs-deflate-params':
+            self.phase, self.deflate, self.peer = 'open', True, ref_deflate.Peer(client_bits=9, client_nct=True)
+            return W.Data(W.handshake_reply(req, DEFLATE_P))
         if name == 'hs-partial':
             self.phase = 'dead'
             return W.Data(W.handshake_reply(req)[:57])
@@ -142,6 +146,7 @@ def probe_scripts():
         ('inside-codepoint', b'', [SFrame(TEXT, b'\x82\xac'), SFrame(TEXT, b'x')], 'one', False),
         ('cont-of-text', b'', [SFrame(CONT, b'\xac rest', fin=1), SFrame(TEXT, b'x')], 'frames', False),
         ('compressed', DEFLATE, [SFrame(TEXT, c1, rsv=4), SFrame(TEXT, c2, rsv=4), SFrame(PING, b'')], 'one', True),
+        ('compressed-params', DEFLATE_P, [SFrame(TEXT, c1, rsv=4), SFrame(PING, b'')], 'one', True),
         ('rsv1-without-ext', b'', [SFrame(TEXT, c1, rsv=4)], 'one', False),
         ('immediate-close', b'', [SFrame(CLOSE, ref_ws.close_payload(1001, b'going'))], 'with-handshake', False),
         ('ping-bytes', b'', [SFrame(PING, b'pp'), SFrame(BINARY, b'\x00\xff')], 'bytes', False),
